@@ -188,6 +188,8 @@ type c10seq struct {
 	kind  string
 	now   time.Time
 	h     int64
+	esmOn bool // emergency shutdown of the auction's app is on
+	env   string // the env field of the begin line (static data of the seized position)
 }
 
 func (s *c10seq) acct(name string) sdk.AccAddress {
@@ -413,6 +415,9 @@ type c10cfg struct {
 	trackSecond bool // follow the auction of the second position (owner: the other account)
 	shiftAuc   uint64 // auction-id counter ahead by this much (as English auctions of the module leave it)
 	shiftLv    uint64 // locked-vault-id counter ahead by this much (as other liquidations leave it)
+	lendBonus  string // lend kinds: LiquidationBonus of the collateral asset ("" = the fixture's 0.05, "0" = no auction bonus)
+	age        int64  // lend kinds: seconds between the borrow and its liquidation (interest is booked first: the close then sends
+	// the reserve's share to the lend module and mints cTokens for the rest, liquidate.go:781-798)
 }
 
 // start builds one seized position the way the chain does and prints the begin line.
@@ -482,6 +487,23 @@ func c10start(t *testing.T, f *c10fix, tr *Trace, cfg c10cfg) *c10seq {
 			return fail("liquidate")
 		}
 	case "lend", "lendkeeper", "lendcross":
+		if cfg.age > 0 {
+			s.now = f.t0.Add(time.Duration(cfg.age) * time.Second)
+			s.h += cfg.age / 6
+			ctx = ctx.WithBlockTime(s.now).WithBlockHeight(s.h)
+			s.ctx = ctx
+			for _, l := range []string{"lender1", "lender2"} {
+				if ok, _ := c10deliver(app, ctx, lendtypes.NewMsgCalculateInterestAndRewards(c10addr(l).String())); ok {
+					tr.Count("world:lend-interest-booked-before-liquidation")
+				}
+			}
+		}
+		if cfg.lendBonus != "" {
+			if r, found := app.LendKeeper.GetAssetRatesParams(ctx, s.p.coll.id); found {
+				r.LiquidationBonus = c10dec(cfg.lendBonus)
+				app.LendKeeper.SetAssetRatesParams(ctx, r)
+			}
+		}
 		c10setTwa(app, ctx, s.p.coll.id, cfg.dropTo, true)
 		if cfg.kind == "lendcross" {
 			// borrow 3 of the fixture: collateral lent to pool 1, debt borrowed from pool 2 over a bridge asset
@@ -563,10 +585,25 @@ func c10start(t *testing.T, f *c10fix, tr *Trace, cfg c10cfg) *c10seq {
 	if lv.IsDebtCmst {
 		cm = "1"
 	}
-	tr.Line("dutch.begin", fmt.Sprintf("kind=%s;decC=%d;decD=%d;target=%s;fee=%s;bonus0=%s;coll0=%s;keeper=%s;incentive=%s;minUsd=%d;T=%d;premium=%s;discount=%s;cmst=%s;twaC=%d",
+	s.env = fmt.Sprintf("kind=%s;decC=%d;decD=%d;target=%s;fee=%s;bonus0=%s;coll0=%s;keeper=%s;incentive=%s;minUsd=%d;T=%d;premium=%s;discount=%s;cmst=%s;twaC=%d",
 		lv.InitiatorType, s.p.coll.dec, s.p.debt.dec, lv.TargetDebt.Amount, lv.FeeToBeCollected, lv.BonusToBeGiven, lv.CollateralToken.Amount, isK, c10raw(c10dec(cfg.incentive)),
-		cfg.minUsd, cfg.T, c10raw(c10dec(cfg.premium)), c10raw(c10dec(cfg.discount)), cm, cfg.dropTo)+lendExtra, s.state())
+		cfg.minUsd, cfg.T, c10raw(c10dec(cfg.premium)), c10raw(c10dec(cfg.discount)), cm, cfg.dropTo) + lendExtra
+	tr.Line("dutch.begin", s.env, s.state())
 	tr.Count("begin:" + cfg.kind)
+	if lv.InitiatorType == "lend" {
+		if lv.BonusToBeGiven.IsZero() {
+			tr.Count("begin:lend:without-bonus")
+		} else {
+			tr.Count("begin:lend:with-bonus")
+		}
+	}
+	if lv.InitiatorType == "external" {
+		if lv.BonusToBeGiven.IsZero() {
+			tr.Count("begin:external:without-bonus")
+		} else {
+			tr.Count("begin:external:with-bonus")
+		}
+	}
 	return s
 }
 
@@ -593,6 +630,7 @@ func (s *c10seq) bid(who string, amt sdk.Int) bool {
 	if ok {
 		if _, open := s.auction(); !open {
 			s.tr.Count("close")
+			s.tr.Count("close:branch:" + s.kind) // vault* → bid.go:161-190, external → :122-158, lend* → :191-202
 		} else {
 			s.tr.Count("partial-fill")
 		}
@@ -641,7 +679,32 @@ func (s *c10seq) tick(dt time.Duration) {
 			s.tr.Count("tick:limit-fill-closes")
 		}
 	}
-	s.tr.Line("dutch.tick", i64(s.now.Unix()), u(tc), b(ac), u(td), b(ad), lb, lbAfter, cl, s.state())
+	kind := "dutch.tick"
+	if s.esmOn {
+		// the app is under emergency shutdown: the iterator takes its ESM branch (auctions.go:153-182)
+		kind = "dutch.tickesm"
+		s.tr.Count("tickesm:" + s.kind)
+		if a, open := s.auction(); open {
+			if s.now.After(a.EndTime) {
+				s.tr.Count("tickesm:past-end:" + s.kind)
+			} else {
+				s.tr.Count("tickesm:inside-window:" + s.kind)
+			}
+		}
+	}
+	s.tr.Line(kind, i64(s.now.Unix()), u(tc), b(ac), u(td), b(ad), lb, lbAfter, cl, s.state())
+}
+
+// esm switches the emergency-shutdown status of the auction's app the way x/esm stores it (environment event, no trace line:
+// the next block's line kind says which branch of the iterator ran)
+func (s *c10seq) esm(on bool) {
+	s.f.app.EsmKeeper.SetESMStatus(s.ctx, esmtypes.ESMStatus{AppId: s.f.appID, Status: on})
+	s.esmOn = on
+	if on {
+		s.tr.Count("esm:on:" + s.kind)
+	} else {
+		s.tr.Count("esm:off")
+	}
 }
 
 func (s *c10seq) setColl(price uint64, active bool) {
@@ -937,7 +1000,21 @@ func c10genCfg(f *c10fix, rng *Rng) c10cfg {
 func (s *c10seq) randomOps(rng *Rng, cfg c10cfg) {
 	bidders := []string{"b1", "b2", "b3", "b4"}
 	nops := 3 + rng.Intn(12)
+	// emergency shutdown of the app in a quarter of the sequences: switched on before some operation, sometimes off again later
+	esmAt, esmOff := -1, -1
+	if rng.Chance(25) {
+		esmAt = rng.Intn(nops)
+		if rng.Chance(30) {
+			esmOff = esmAt + 1 + rng.Intn(5)
+		}
+	}
 	for o := 0; o < nops; o++ {
+		if o == esmAt {
+			s.esm(true)
+		}
+		if o == esmOff {
+			s.esm(false)
+		}
 		a, open := s.auction()
 		if !open {
 			// a few ops after the close: nothing may move any more
@@ -1009,6 +1086,14 @@ func (s *c10seq) randomOps(rng *Rng, cfg c10cfg) {
 				}
 			}
 			who := bidders[rng.Intn(4)]
+			if rng.Chance(4) {
+				// the same amount offered in the collateral's denomination: bid.go:24-26 must refuse it
+				denom := s.p.coll.denom
+				_, cl := c10deliver(s.f.app, s.ctx, auctionsV2types.NewMsgPlaceMarketBid(c10addr(who).String(), s.aucID, sdk.Coin{Denom: denom, Amount: amt}))
+				s.tr.Count("bidx:" + cl)
+				s.tr.Line("dutch.bidx", who, denom, amt.String(), cl, s.state())
+				continue
+			}
 			s.bid(who, amt)
 		case r < 82:
 			el := int64(s.now.Sub(a.StartTime) / time.Second)
@@ -1469,7 +1554,8 @@ func (s *c10seq1) randomOps1(rng *Rng, cfg c10cfg1) {
 
 type c10seqL struct {
 	*c10seq
-	mapID uint64
+	mapID    uint64
+	borrowID uint64 // the liquidated borrow behind the tracked auction
 }
 
 func (s *c10seqL) auctionL() (auctiontypes.DutchAuction, bool) {
@@ -1496,17 +1582,49 @@ func (s *c10seqL) stateL() string {
 		}
 		c := s.f.app.BankKeeper.GetBalance(s.ctx, a, s.p.coll.denom).Amount
 		d := s.f.app.BankKeeper.GetBalance(s.ctx, a, s.p.debt.denom).Amount
-		if n == "pool" {
-			r := s.f.app.AccountKeeper.GetModuleAddress(lendtypes.ModuleName)
-			c = c.Add(s.f.app.BankKeeper.GetBalance(s.ctx, r, s.p.coll.denom).Amount)
-			d = d.Add(s.f.app.BankKeeper.GetBalance(s.ctx, r, s.p.debt.denom).Amount)
-		}
-		if n == "lendres" || n == "poolin" {
-			c, d = sdk.ZeroInt(), sdk.ZeroInt() // folded into "pool" for this generation
+		if n == "poolin" {
+			c, d = sdk.ZeroInt(), sdk.ZeroInt() // same-pool borrows only in this generation's population
 		}
 		sb = append(sb, n+":"+c.String()+":"+d.String())
 	}
-	return rec + "\t" + strings.Join(sb, ",") + "\t" + fmt.Sprintf("next=%d", s.f.app.AuctionKeeper.GetLendAuctionID(s.ctx))
+	return rec + "\t" + strings.Join(sb, ",") + "\t" + fmt.Sprintf("next=%d", s.f.app.AuctionKeeper.GetLendAuctionID(s.ctx)) + "\t" + s.bookL()
+}
+
+// bookL prints the lend-side records the close of the auction works on: locked vault, borrow position, interest tracker and the
+// cToken balances (pool: cTokens of the debt asset and of the collateral asset; borrower: cTokens of the collateral asset)
+func (s *c10seqL) bookL() string {
+	app := s.f.app
+	lv := "none"
+	if v, found := app.LiquidationKeeper.GetLockedVault(s.ctx, s.f.appID, s.lvID); found {
+		lv = fmt.Sprintf("%s:%s:%s", v.AmountIn, v.AmountOut, v.UpdatedAmountOut)
+	}
+	bo, in := "none", "0"
+	if b, found := app.LendKeeper.GetBorrow(s.ctx, s.borrowID); found {
+		liq := 0
+		if b.IsLiquidated {
+			liq = 1
+		}
+		bo = fmt.Sprintf("%s:%s:%d", b.AmountIn.Amount, b.AmountOut.Amount, liq)
+		in = c10raw(b.InterestAccumulated)
+	}
+	tk := "0"
+	if t, found := app.LendKeeper.GetBorrowInterestTracker(s.ctx, s.borrowID); found {
+		tk = c10raw(t.ReservePoolInterest)
+	}
+	cD, cC := "", ""
+	if r, found := app.LendKeeper.GetAssetRatesParams(s.ctx, s.p.debt.id); found {
+		if a, ok := app.AssetKeeper.GetAsset(s.ctx, r.CAssetID); ok {
+			cD = a.Denom
+		}
+	}
+	if r, found := app.LendKeeper.GetAssetRatesParams(s.ctx, s.p.coll.id); found {
+		if a, ok := app.AssetKeeper.GetAsset(s.ctx, r.CAssetID); ok {
+			cC = a.Denom
+		}
+	}
+	pool := s.acct("pool")
+	return fmt.Sprintf("lv=%s;borrow=%s;int=%s;trk=%s;ctok=%s:%s:%s", lv, bo, in, tk,
+		app.BankKeeper.GetBalance(s.ctx, pool, cD).Amount, app.BankKeeper.GetBalance(s.ctx, pool, cC).Amount, app.BankKeeper.GetBalance(s.ctx, s.acct("owner"), cC).Amount)
 }
 
 type c10cfgL struct {
@@ -1519,11 +1637,30 @@ type c10cfgL struct {
 	shiftAuc    uint64 // lend-auction-id counter ahead
 	shiftLv     uint64 // locked-vault-id counter ahead (vault liquidations share it)
 	resFund int64 // debt-denom funds of the lend reserve (lend module account): pays when the collateral is sold out below the target
+	age     int64 // seconds between the borrow and its liquidation: the liquidation books the interest accrued meanwhile
 }
+
+func app0(f *c10fix) *chain.App { return f.app }
 
 func c10startL(t *testing.T, f *c10fix, tr *Trace, cfg c10cfgL) *c10seqL {
 	ctx, _ := f.base.CacheContext()
 	s := &c10seqL{c10seq: &c10seq{f: f, ctx: ctx, tr: tr, p: f.pairs[0], kind: "l1", now: f.t0, h: 10}, mapID: 3}
+	if cfg.age > 0 {
+		s.now = f.t0.Add(time.Duration(cfg.age) * time.Second)
+		s.h += cfg.age / 6
+		ctx = ctx.WithBlockTime(s.now).WithBlockHeight(s.h)
+		s.ctx = ctx
+		tr.Count("worldL:aged-borrow")
+		if cfg.age%2 == 0 {
+			// the borrowers let the lend module book their interest first (MsgCalculateInterestAndRewards): that fills the interest
+			// tracker with the reserve's share, which the close of the auction forwards to the lend module
+			for _, l := range []string{"lender1", "lender2"} {
+				if ok, _ := c10deliver(app0(f), ctx, lendtypes.NewMsgCalculateInterestAndRewards(c10addr(l).String())); ok {
+					tr.Count("worldL:interest-booked-before-liquidation")
+				}
+			}
+		}
+	}
 	app := f.app
 	fail := func(why string) *c10seqL {
 		tr.Count("setupL:" + why)
@@ -1597,15 +1734,19 @@ func c10startL(t *testing.T, f *c10fix, tr *Trace, cfg c10cfgL) *c10seqL {
 		}
 	}
 	pair, _ := app.LendKeeper.GetLendPair(ctx, lv.ExtendedPairId)
-	tr.Line("dutch.l1.begin", fmt.Sprintf("decC=%d;decD=%d;target=%s;coll0=%s;deposit=%s;bonus=%s;dust=%d;T=%d;buffer=%s;cusp=%s;twaC=%d",
+	s.lvID, s.borrowID = a.LockedVaultId, lv.OriginalVaultId
+	tr.Line("dutch.l1.begin", fmt.Sprintf("decC=%d;decD=%d;target=%s;coll0=%s;deposit=%s;bonus=%s;dust=%d;T=%d;buffer=%s;cusp=%s;twaC=%d;ltv=%s;pen=%s;thr=%s",
 		s.p.coll.dec, s.p.debt.dec, a.InflowTokenTargetAmount.Amount, a.OutflowTokenInitAmount.Amount, deposit, c10raw(rates.LiquidationBonus), pair.MinUsdValueLeft, cfg.T,
-		c10raw(c10dec(cfg.buffer)), c10raw(c10dec(cfg.cusp)), cfg.dropTo), s.stateL())
+		c10raw(c10dec(cfg.buffer)), c10raw(c10dec(cfg.cusp)), cfg.dropTo, c10raw(rates.Ltv), c10raw(rates.LiquidationPenalty), c10raw(rates.LiquidationThreshold)), s.stateL())
 	tr.Count("begin:l1")
 	return s
 }
 
 func (s *c10seqL) bidL(who string, amt sdk.Int) {
 	res := s.lendResDebt()
+	tc, ac := s.collTwa()
+	td, ad := s.debtTwa()
+	_, lvWas := s.f.app.LiquidationKeeper.GetLockedVault(s.ctx, s.f.appID, s.lvID)
 	ok, cl := c10deliver(s.f.app, s.ctx, &auctiontypes.MsgPlaceDutchLendBidRequest{Bidder: c10addr(who).String(), AuctionId: s.aucID, Amount: sdk.Coin{Denom: s.p.coll.denom, Amount: amt},
 		AppId: s.f.appID, AuctionMappingId: s.mapID})
 	s.tr.Count("bidL:" + cl)
@@ -1622,7 +1763,30 @@ func (s *c10seqL) bidL(who string, amt sdk.Int) {
 			s.tr.Count("partial-fillL")
 		}
 	}
-	s.tr.Line("dutch.l1.bid", who, amt.String(), res.String(), cl, s.stateL())
+	if ok {
+		if _, open := s.auctionL(); !open && lvWas {
+			// which branch of UnLiquidateLockedBorrows the close took
+			_, lvIs := s.f.app.LiquidationKeeper.GetLockedVault(s.ctx, s.f.appID, s.lvID)
+			b, bIs := s.f.app.LendKeeper.GetBorrow(s.ctx, s.borrowID)
+			switch {
+			case lvIs:
+				s.tr.Count("closeL:book:re-liquidated")
+			case !bIs:
+				s.tr.Count("closeL:book:borrow-deleted")
+			case bIs && !b.IsLiquidated:
+				s.tr.Count("closeL:book:borrow-restored")
+			default:
+				s.tr.Count("closeL:book:other")
+			}
+		}
+	}
+	b2s := func(x bool) string {
+		if x {
+			return "1"
+		}
+		return "0"
+	}
+	s.tr.Line("dutch.l1.bid", who, amt.String(), res.String(), u(tc), b2s(ac), u(td), b2s(ad), cl, s.stateL())
 }
 
 func (s *c10seqL) tickL(dt time.Duration) {
@@ -1826,6 +1990,24 @@ func TestC10(t *testing.T) {
 	s.tick(9 * time.Second)
 	s.tick(1 * time.Second)
 	s.tick(1 * time.Second)
+	// ---- corpus 4: emergency shutdown, vault-initiated auction past the end of its window — TriggerEsm forwards what was collected
+	// but deletes nothing, so every further block forwards the same amount again, out of a stranger's limit deposit
+	cfg = base
+	s = c10start(t, f, tr, cfg)
+	s.bid("b1", sdk.NewInt(100000))
+	s.limit("b4", 30, sdk.NewInt(250000))
+	s.esm(true)
+	s.tick(61 * time.Minute) // TriggerEsm: 100 000 to the collector, auction and collateral stay
+	s.tick(1 * time.Minute)  // again: 100 000 of b4's deposit
+	s.tick(1 * time.Minute)  // again
+	s.tick(1 * time.Minute)  // 50 000 left: the transfer fails, the step is rolled back
+	if ok, _ := c10deliver(f.app, s.ctx, auctionsV2types.NewMsgCancelLimitBid(c10addr("b4").String(), s.p.coll.id, s.p.debt.id, sdk.NewInt(30))); ok {
+		tr.Count("corpus:esm-trigger:stranger-could-cancel")
+	} else {
+		tr.Count("corpus:esm-trigger:stranger-cannot-cancel")
+	}
+	s.bid("b2", sdk.NewInt(200000)) // the auction still takes bids
+	tr.Count("corpus:esm-trigger-repeats")
 
 	// ---- lend-initiated positions (fixture of the repository's own auctionsV2 tests)
 	fl := c10newLendFix(t)
@@ -1840,6 +2022,39 @@ func TestC10(t *testing.T) {
 		s.bid("b1", sdk.NewInt(10000000))
 		s.tick(20 * time.Minute)
 		s.bid("b2", sdk.NewInt(100000000))
+	}
+	// lend close without an auction bonus (LiquidationBonus of the collateral asset 0), closed by one bid
+	lcfg.kind, lcfg.pair, lcfg.amountOut, lcfg.dropTo, lcfg.lendBonus = "lendkeeper", 0, sdk.NewInt(70000000), 1800000, "0"
+	if s = c10start(t, fl, tr, lcfg); s != nil {
+		s.tick(20 * time.Minute)
+		s.bid("b2", sdk.NewInt(100000000))
+	}
+	lcfg.lendBonus = ""
+	// ---- emergency shutdown while a lend- / externally initiated auction is alive: inside the window the price keeps falling,
+	// past the end of the window the iterator leaves such an auction exactly as it is (no update, no restart) — seeded change s81
+	lcfg.kind, lcfg.pair, lcfg.amountOut, lcfg.dropTo = "lendkeeper", 0, sdk.NewInt(70000000), 1800000
+	if s = c10start(t, fl, tr, lcfg); s != nil {
+		s.esm(true)
+		s.tick(30 * time.Minute)
+		s.tick(30 * time.Minute) // exactly the end of the window
+		s.tick(30 * time.Minute) // past it
+		s.tick(60 * time.Minute)
+		s.bid("b1", sdk.NewInt(10000000))
+		s.esm(false)
+		s.tick(1 * time.Minute) // shutdown lifted: the ordinary iterator restarts the auction
+		s.bid("b2", sdk.NewInt(100000000))
+	}
+	cfg = base
+	cfg.kind, cfg.reserve, cfg.incentive = "external", 1000000, "0"
+	if s = c10start(t, f, tr, cfg); s != nil {
+		s.tick(10 * time.Minute)
+		s.esm(true)
+		s.tick(20 * time.Minute)
+		s.tick(31 * time.Minute) // past the end
+		s.tick(3 * time.Hour)    // beyond the time-to-zero of the price function
+		s.bid("b1", sdk.NewInt(300000))
+		s.tick(1 * time.Minute)
+		s.bid("b2", sdk.NewInt(5000000))
 	}
 	nl := scale(80, 3000)
 	for i := 0; i < nl; i++ {
@@ -1856,6 +2071,8 @@ func TestC10(t *testing.T) {
 		if cfg.reserve > 1000 {
 			cfg.reserve = 200000000
 		}
+		cfg.lendBonus = []string{"", "0", "0", "0.1"}[rng.Intn(4)]
+		cfg.age = []int64{0, 0, 86400 * 30, 86400 * 365}[rng.Intn(4)]
 		s := c10start(t, fl, tr, cfg)
 		if s == nil {
 			continue
@@ -1916,11 +2133,21 @@ func TestC10(t *testing.T) {
 			sl.bidL("b2", a.OutflowTokenCurrentAmount.Amount)
 		}
 	}
+	// the same with a borrow that is a year old: interest was booked at liquidation, the close sends the reserve's share to the lend
+	// module and mints cTokens for the rest
+	cl.age = 86400 * 365
+	if sl = c10startL(t, fl, tr, cl); sl != nil {
+		sl.bidL("b1", sdk.NewInt(1000000))
+		if a, ok := sl.auctionL(); ok {
+			sl.bidL("b2", a.OutflowTokenCurrentAmount.Amount)
+		}
+	}
 	nL := scale(150, 6000)
 	for i := 0; i < nL; i++ {
 		cfg := c10cfgL{dropTo: []uint64{1860000, 1800000, 1700000, 1500000, 1200000, 900000, 400000}[rng.Intn(7)],
 			T: []uint64{10, 60, 600, 3600, 21600}[rng.Intn(5)], buffer: []string{"1.2", "1.05", "1.5", "1"}[rng.Intn(4)],
-			cusp: []string{"0.7", "0.5", "0.9", "0.3"}[rng.Intn(4)], sweep: rng.Chance(50), resFund: []int64{0, 1000, 500000000, 500000000}[rng.Intn(4)]}
+			cusp: []string{"0.7", "0.5", "0.9", "0.3"}[rng.Intn(4)], sweep: rng.Chance(50), resFund: []int64{0, 1000, 500000000, 500000000}[rng.Intn(4)],
+			age: []int64{0, 0, 3600, 3601, 86400 * 30, 86400*30 + 1, 86400 * 365}[rng.Intn(7)]}
 		cfg.trackSecond = cfg.sweep && rng.Chance(50)
 		if rng.Chance(45) {
 			cfg.shiftAuc = []uint64{0, 1, 2}[rng.Intn(3)]
